@@ -32,6 +32,8 @@ type globalMaxInflight struct {
 type instanceState struct {
 	count     int32
 	requestId int64
+	// lock serializes the reports of this instance
+	lock sync.Mutex
 }
 
 func (f *globalMaxInflight) Type() proxyv1alpha1.FlowControlSchemaType {
@@ -65,31 +67,39 @@ func (f *globalMaxInflight) add(n int32) int32 {
 }
 
 func (f *globalMaxInflight) SetState(instance string, requestId int64, current int32) (bool, int32, error) {
-	f.lock.RLock()
-	state, ok := f.instanceStates[instance]
-	f.lock.RUnlock()
-
 	if current < 0 {
-		if ok {
-			f.lock.Lock()
-			delete(f.instanceStates, instance)
-			f.add(-state.count)
-			f.lock.Unlock()
-			current = 0
-		}
-		return false, -1, nil
-	} else if !ok || state == nil {
+		// remove the instance: look it up and subtract its count under the write lock, so that
+		// racing removals subtract once and no report is applied to a state that is being dropped
 		f.lock.Lock()
-		state, ok = f.instanceStates[instance]
-		if !ok || state == nil {
-			state = &instanceState{}
-			f.instanceStates[instance] = state
+		if state, ok := f.instanceStates[instance]; ok {
+			delete(f.instanceStates, instance)
+			if state != nil {
+				f.add(-atomic.LoadInt32(&state.count))
+			}
 		}
 		f.lock.Unlock()
+		return false, -1, nil
 	}
 
+	// the read lock is held from the lookup to the end of the update: the state can not be
+	// removed from the map in between
 	f.lock.RLock()
+	state := f.instanceStates[instance]
+	for state == nil {
+		f.lock.RUnlock()
+		f.lock.Lock()
+		if f.instanceStates[instance] == nil {
+			f.instanceStates[instance] = &instanceState{}
+		}
+		f.lock.Unlock()
+		f.lock.RLock()
+		state = f.instanceStates[instance]
+	}
 	defer f.lock.RUnlock()
+
+	// reports of one instance are applied one at a time
+	state.lock.Lock()
+	defer state.lock.Unlock()
 
 	if requestId > 0 {
 		oldId := atomic.LoadInt64(&state.requestId)
@@ -103,12 +113,14 @@ func (f *globalMaxInflight) SetState(instance string, requestId int64, current i
 	delta := current - old
 	overflowed := f.add(delta)
 
-	if overflowed > 0 {
-		atomic.AddInt32(&state.count, -delta)
+	// only an increase can be refused: a report that lowers the count is always applied,
+	// also while the total is above a limit that has been lowered
+	if overflowed > 0 && delta > 0 {
+		atomic.StoreInt32(&state.count, old)
 		f.add(-delta)
 		return false, old, nil
 	}
-	if overflowed == 0 && current > 0 {
+	if overflowed >= 0 && current > 0 {
 		return false, current, nil
 	}
 	return true, current, nil
